@@ -319,7 +319,7 @@ pub fn property(tier: Tier) -> Property {
             panic_is_violation: true,
             render: |c: &GroupCase| format!("points={} generators={:?}", c.k, c.gens),
             rule: "exhaustive: all generator sets of <= 3 permutations on 2, 3 and 4 points (3 + 42 + 2325 sets), directly on the group structure through the cfg(slotted_egraphs_verif) wrapper; every split of the set exercised through add_set; non-trivial = generated group is neither trivial nor the full symmetric group",
-            case_timeout_s: 120,
+            case_timeout_s: 60,
             exhaustive: true,
         }),
         Box::new(Stage {
@@ -329,7 +329,7 @@ pub fn property(tier: Tier) -> Property {
             panic_is_violation: false,
             render: |c: &GroupCase| format!("points={} generators={:?} (as unions on a {}-slot leaf)", c.k, c.gens, c.k),
             rule: "exhaustive: the same generator sets asserted as unions of a multi-slot leaf with permuted copies, then all k! permuted copies queried with eq, plus progress().sum_of_symmetries; non-trivial as above",
-            case_timeout_s: 120,
+            case_timeout_s: 60,
             exhaustive: true,
         }),
         Box::new(Stage {
@@ -339,7 +339,7 @@ pub fn property(tier: Tier) -> Property {
             panic_is_violation: true,
             render: |c: &GroupCase| format!("points={} generators={:?}", c.k, c.gens),
             rule: "random generator sets (1-3 generators: products of 1-2 disjoint cycles, or uniform) on 5 and 6 points, directly on the group structure; non-trivial as above; distinct by generator list",
-            case_timeout_s: 120,
+            case_timeout_s: 60,
             exhaustive: false,
         }),
         Box::new(Stage {
@@ -349,7 +349,7 @@ pub fn property(tier: Tier) -> Property {
             panic_is_violation: false,
             render: |c: &GroupCase| format!("points={} generators={:?} (as unions on a {}-slot leaf)", c.k, c.gens, c.k),
             rule: "random generator sets on 5 and 6 points asserted through unions on g5 / g6 leaves, all 120 / 720 permuted copies queried",
-            case_timeout_s: 300,
+            case_timeout_s: 60,
             exhaustive: false,
         }),
         Box::new(Stage {
@@ -370,7 +370,7 @@ pub fn property(tier: Tier) -> Property {
             panic_is_violation: false,
             render: |c: &RedCase| red_hist(c).render(),
             rule: "exhaustive: all generator sets of <= 2 permutations on 3 and 4 points, then each slot in turn made redundant by a further union; remaining symmetries and redundancies judged by the ground closure in both directions",
-            case_timeout_s: 300,
+            case_timeout_s: 60,
             exhaustive: true,
         }),
     ];
